@@ -818,11 +818,17 @@ impl<'a> WriteTxn<'a> {
     }
 
     pub fn add_node_label(&mut self, node: InternalNodeId, label_id: LabelId) -> Result<()> {
+        // The last operation on a (node, label) pair inside a transaction wins: commit applies
+        // all additions before all removals, so an earlier removal must not outlive this add.
+        self.pending_label_removals
+            .retain(|pending| *pending != (node, label_id));
         self.pending_label_additions.push((node, label_id));
         Ok(())
     }
 
     pub fn remove_node_label(&mut self, node: InternalNodeId, label_id: LabelId) -> Result<()> {
+        self.pending_label_additions
+            .retain(|pending| *pending != (node, label_id));
         self.pending_label_removals.push((node, label_id));
         Ok(())
     }
